@@ -402,6 +402,23 @@ func docMods(doc map[string]any, sch *schemaInfo) []docMod {
 	} else {
 		add("add:credentialSubject.id", "", func(d map[string]any) { d["credentialSubject"].(map[string]any)["id"] = otherDID })
 	}
+	// members that no context defines: with the JSON-LD safe mode (the default) the document no
+	// longer merklizes, so the pair must be rejected whatever the schema.  (A top-level undefined
+	// member cannot be carried by the W3CCredential struct; the open maps can.)
+	add("add:undefined:credentialSubject", "", func(d map[string]any) { d["credentialSubject"].(map[string]any)["isAdmin"] = true })
+	if _, ok := cs["info"].(map[string]any); ok {
+		add("add:undefined:credentialSubject.info", "", func(d map[string]any) {
+			d["credentialSubject"].(map[string]any)["info"].(map[string]any)["clearance"] = "top"
+		})
+	}
+	if st, ok := base["credentialStatus"].(map[string]any); ok {
+		add("add:undefined:credentialStatus", "", func(d map[string]any) { d["credentialStatus"].(map[string]any)["bypass"] = "yes" })
+		if _, ok := st["statusIssuer"].(map[string]any); ok {
+			add("add:undefined:credentialStatus.statusIssuer", "", func(d map[string]any) {
+				d["credentialStatus"].(map[string]any)["statusIssuer"].(map[string]any)["bypass"] = 1
+			})
+		}
+	}
 	for _, member := range []string{"refreshService", "displayMethod"} {
 		member := member
 		if _, ok := base[member]; ok {
@@ -465,6 +482,9 @@ func docMods(doc map[string]any, sch *schemaInfo) []docMod {
 // the subject id and the expiration; the other statements are not in the claim.
 func boundSite(sch *schemaInfo, m docMod, hasSubjectType bool) bool {
 	s := m.Site
+	if strings.HasPrefix(s, "add:undefined:") {
+		return true
+	}
 	if s == "change:id" {
 		// the credential's own identifier is the IRI of the root node: it is the object of no
 		// statement, the merklizer has no entry for it, and ToCoreClaim does not read it
